@@ -87,6 +87,7 @@ func runC06(c *Ctx) {
 	c.readDefaults()
 	c.lenIVFlowB()
 	c.subrsTableB()
+	c.lenIVGuards()
 	c.seacRules()
 	c.glyphOpSwitches()
 	c.glyphOpLiterals()
